@@ -593,6 +593,7 @@ class WithComponentsConstraint(AbstractConstraint):
             if component is None and not isinstance(
                     constraint, (ComponentPresentConstraint,
                                  ComponentAbsentConstraint,
+                                 ConstraintsExclusion,
                                  AbstractConstraintSet)):
                 # a constraint on the value of a component applies
                 # when the component is present: an absent one has
